@@ -395,7 +395,7 @@ def check_position(ctx, exc, candidates, text_for_detail, only_file=None):
         fail('context-shape', 'context is not [.., line, pointer]')
         return 'pos:bad'
     want = line.strip('\r\n')
-    if cx[-2] != want:
+    if cx[-2].strip('\r\n') != want:
         if kind == 'production':
             fail('production-error:context-is-not-line-lineno',
                  'line %d is %r' % (ln, want))
@@ -806,7 +806,7 @@ def g_unit(draw, prefix='G', with_prelude=True, pragmas=True):
             if not isinstance(kt, tuple):
                 aliases.append((alias, cls))
         out.append(head + ' {\n    ' + '\n    '.join(vals) + '\n};')
-    info = dict(classes=[c[0] for c in classes])
+    info = dict(classes=[c[0] for c in classes], statements=out)
     return '\n'.join(out) + '\n', info
 
 
@@ -856,8 +856,8 @@ _BAD_PRAGMA_PARAMS = ['1:', '//h/ns', '', 'a b', 'http://h/root', 'root/',
                       '/root', 'root//x', 'ä', '\\x41', 'root/x/',
                       'http:', ':', '/', '//', 'root\\\\x', 'a:b:c',
                       '%', 'root/cimv2', 'root/a-b', ' root', '\\n']
-_PRAGMA_NAMES = ['namespace', 'Namespace', 'include', 'locale', 'nonsense',
-                 'class']
+_PRAGMA_NAMES = ['namespace', 'namespace', 'Namespace', 'NAMESPACE',
+                 'include', 'locale', 'nonsense', 'class']
 _POOL = _KEYWORDS + _PUNCT + _ODD_LITERALS + ['Key', 'Description', 'MaxLen',
                                               'Values', 'Id', 'Left']
 
@@ -866,10 +866,15 @@ _SEPS_ODD = ['\r\n', '\r', '\r\r\r ', '\n\r\r', ' /* c */ ',
              ' /* multi\n line */ ', '\n/*\n\n*/\n', ' // remark\n',
              '\n\n\n', '\x0c', '\t\t', '', ' /**/ ']
 
-MUTATIONS = ['drop', 'dup', 'swap', 'trunc', 'replace', 'insert',
-             'unterminated-string', 'unterminated-comment', 'bad-escape',
-             'huge-number', 'pragma', 'case', 'illegal-char', 'split',
-             'odd-space', 'drop-range', 'wrong-literal', 'wrong-literal']
+# mutations that can only produce syntax errors (or still valid text)
+SYNTAX_MUTATIONS = ['drop', 'dup', 'swap', 'trunc', 'unterminated-string',
+                    'unterminated-comment', 'case', 'illegal-char', 'split',
+                    'odd-space']
+# all mutations; the ones that reach the code behind the parser are weighted
+MUTATIONS = SYNTAX_MUTATIONS + [
+    'drop-range', 'replace', 'insert', 'bad-escape', 'bad-escape',
+    'huge-number', 'pragma', 'pragma', 'wrong-literal', 'wrong-literal',
+    'wrong-literal']
 
 
 def _is_str(tok):
@@ -985,8 +990,9 @@ def render(toks, seps):
     return ''.join(out)
 
 
-def g_mutated_text(draw, base):
+def g_mutated_text(draw, base, mutations=None):
     "Tokenise base, draw separators and 0-2 mutations; returns (text, muts)"
+    mutations = mutations or MUTATIONS
     toks = tokenize(base)
     seps = ['']
     odd = _chance(draw, 20)
@@ -1006,7 +1012,7 @@ def g_mutated_text(draw, base):
     nmut = 0 if r < 10 else (1 if r < 75 else 2)
     muts = []
     for _ in range(nmut):
-        name = _pick(draw, MUTATIONS)
+        name = _pick(draw, mutations)
         mutate(draw, toks, seps, name)
         muts.append(name)
     text = render(toks, seps)
@@ -1279,6 +1285,10 @@ def files_strategy(draw):
         search = True
         files['qualifiers.mof'] = PRELUDE
         files['dep/F_Super.mof'] = 'class F_Super { [Key] string Id; };\n'
+        if _chance(draw, 30):
+            # the file found for the superclass defines something else
+            files['dep/F_Super.mof'] = _pick(draw, [
+                'class F_Else { [Key] string Id; };\n', '', '// nothing\n'])
         files['dep/F_Target.mof'] = '[Description("t")] class F_Target ' \
             '{ [Key] uint32 Id; };\n'
         files[top] = 'class F_Sub : F_Super { [Description("x")] uint8 p; ' \
@@ -1292,7 +1302,8 @@ def files_strategy(draw):
     muts = ()
     if _chance(draw, 70):
         faulty = _pick(draw, sorted(files))
-        files[faulty], muts = g_mutated_text(draw, files[faulty])
+        files[faulty], muts = g_mutated_text(draw, files[faulty],
+                                             SYNTAX_MUTATIONS)
     enc = {}
     for name, text in files.items():
         data = text.encode('utf-8', 'surrogatepass')
@@ -1349,11 +1360,6 @@ def files_oracle(ctx, ex):
         classes = judge(ctx, kind, exc, alltext + '#pragma include', True,
                         cands, position=not _in_embedded(exc),
                         only_file=only if ex['entry'] == 'file' else None)
-        if kind == 'leak' and isinstance(exc, UnicodeDecodeError) and \
-                ex['structure'] != 'nonutf8' and \
-                'surrogate' not in str(exc):
-            ctx.fail('files:UnicodeDecodeError-for-valid-utf8', _detail(
-                exc, alltext))
         check_reuse(ctx, comp, kind, alltext)
     finally:
         os.chdir(cwd)
@@ -1542,14 +1548,47 @@ def repofault_oracle(ctx, ex):
 
 @st.composite
 def mock_strategy(draw):
-    base, _ = g_unit(draw, prefix='M', pragmas=False)
-    pragma = None
+    """
+    Units with statement-level changes (a statement dropped, repeated or
+    moved: missing dependencies, ALREADY_EXISTS, use before definition) and
+    syntax-level mutations; the value/type mutations are left to the strings
+    and typed sub-checks, the compiler code is the same.
+    """
+    _, info = g_unit(draw, prefix='M', pragmas=False)
+    stmts = list(info['statements'])
+    muts = []
+    if _chance(draw, 60) and stmts:
+        for _ in range(_int(draw, 1, 2)):
+            k = _int(draw, 0, len(stmts) - 1)
+            op = _pick(draw, ['stmt-drop', 'stmt-dup', 'stmt-move'])
+            if op == 'stmt-drop':
+                if k == 0 and stmts[0] == PRELUDE:
+                    # drop one qualifier declaration of the prelude
+                    lines = PRELUDE.splitlines(True)
+                    del lines[_int(draw, 0, len(lines) - 1)]
+                    stmts[0] = ''.join(lines)
+                else:
+                    del stmts[k]
+            elif op == 'stmt-dup':
+                stmts.insert(_int(draw, k, len(stmts)), stmts[k])
+            else:
+                st_ = stmts.pop(k)
+                stmts.insert(_int(draw, 0, len(stmts)), st_)
+            muts.append(op)
+            if not stmts:
+                break
+    base = '\n'.join(stmts) + '\n'
     if _chance(draw, 15):
-        pragma = _pick(draw, ['root/x', 'root/missing', 'root/cimv2'])
-        base = '#pragma namespace ("%s")\n' % pragma + base
-    text, muts = g_mutated_text(draw, base)
+        base = '#pragma namespace ("%s")\n' % _pick(
+            draw, ['root/x', 'root/missing', 'root/cimv2']) + base
+        muts.append('pragma-namespace')
+    if _chance(draw, 40):
+        text, m2 = g_mutated_text(draw, base, SYNTAX_MUTATIONS)
+        muts += list(m2)
+    else:
+        text = base
     return dict(text=text, ns=_pick(draw, [None, 'root/cimv2', 'root/x']),
-                muts=muts, twice=_chance(draw, 10))
+                muts=tuple(muts), twice=_chance(draw, 10))
 
 
 _PRAGMA_NS = re.compile(r'#\s*pragma\s+namespace\s*\(\s*"([^"]*)"', re.I)
@@ -1692,7 +1731,7 @@ SUBCHECKS = [
     Sub('repofault', enumerate=repofault_enumerate, quick=(16, 0),
         thorough=(16, 0)),
     Sub('mock', strategy=mock_strategy, oracle=mock_oracle,
-        quick=(8, 80), thorough=(16, 2000), case_timeout=90),
+        quick=(8, 150), thorough=(16, 3000), case_timeout=90),
     Sub('termination', enumerate=termination_enumerate, quick=(8, 0),
         thorough=(8, 0)),
 ]
